@@ -42,6 +42,19 @@ prop('C04',
   "Not decided: table contents over command sequences, subsumption semantics of matches_with_wildcards for overlapping matches (values), timing.",
   "custom AST/CFG checker: must-precede ordering, guard dominance, effect intervals, argument agreement, guard evaluation under constant substitution, ownership", "DESIGN.md 5/C04")
 
+prop('C12',
+  "Static analysis of /repo's current source: decides structural necessary conditions of action application and port rules - each of "
+  "the 12 OF1.0 action codes has the handler the naming convention selects, reads only fields of its registered codec class and "
+  "returns the packet on every path; each rewrite handler writes exactly the header field the spec names from the action field of "
+  "the same name under the right protocol guards; VLAN push/strip read type and payload before overwriting them; the physical emission "
+  "and both tx counters are unreachable (path-sensitive reachability under each flag assignment) for the ingress port, a missing port, "
+  "NO_FWD, PORT_DOWN, LINK_DOWN and lie on exactly the same paths; receive counters and lookup are reachable exactly for the accepted "
+  "combinations of NO_RECV/NO_RECV_STP/STP-ness (all 8) and not for dropped fragments or NO_PACKET_IN misses; every virtual port has its "
+  "arm, flood/all skip exactly the ingress port (and NO_FLOOD for flood) and never break; port-mod errors precede any config change. "
+  "Decides these conditions, not emitted bytes or checksum validity.",
+  "Not decided: byte-for-byte results, checksum/length validity after rewrites (C14), the full port-flag product beyond the enumerated assignments.",
+  "custom AST/CFG checker: registry exhaustiveness, path-sensitive reachability under constant environments, mutual (post)dominance, def-use ordering, field-table agreement", "DESIGN.md 5/C12")
+
 NOT_APPLICABLE = {
   'C16': "Address types: the statement is about numeric/textual agreement over the whole address domain (byte order, mask arithmetic, CIDR parsing, zero-run compression, round trips, rejection of malformed text) - results of computations on runtime values; no shape-level rule is a necessary and telling condition for it (DESIGN.md section 7).",
 }
